@@ -988,7 +988,8 @@ fn chunk_range<T: std::iter::Step + std::ops::Add<u64, Output = T> + std::cmp::O
     chunk_size: usize,
 ) -> impl Iterator<Item = RangeInclusive<T>> {
     range.clone().step_by(chunk_size).map(move |block_start| {
-        let block_end = (block_start + chunk_size as u64).min(*range.end());
+        // blocks hold `chunk_size` versions and do not share their end points
+        let block_end = (block_start + (chunk_size as u64 - 1)).min(*range.end());
         block_start..=block_end
     })
 }
